@@ -29,7 +29,7 @@ quick_time_conv = [
  {"entry": "HCDateDec"}, {"entry": "HCTimeDec"}, {"entry": "HCTime"},
  {"entry": "HCDateTimeDec", "args": [[0], [1]]},
  {"entry": "HCDate", "args": [[2000, 2000]]},
- {"entry": "HCDateTime", "args": [[2024, 2024, -480]]},
+ {"entry": "HCDateTime", "args": [[2024, 2024, -480], [1970, 1970, 0]]},
 ]
 thorough_time_conv = [
  {"entry": "HCDateDec"}, {"entry": "HCTimeDec"}, {"entry": "HCTime"},
